@@ -6,7 +6,7 @@
    (handleQueueSubscription -> notifyToPullNextJobs) and start()'s unconditional notify covering
    items that were there before the bind. *)
 From Coq Require Import List Arith.
-From VQ Require Import SliceJob SliceJobProofs SliceWake SliceWakeProofs.
+From VQ Require Import SliceJob SliceJobProofs SliceWake SliceWakeProofs SlicePool SlicePoolProofs.
 Import ListNotations.
 
 (* A delivered item is executed at most once by the consumer that dequeued it. *)
@@ -32,3 +32,12 @@ Theorem C13_drained_at_rest :
   forall s, KReachable s -> at_rest s = true -> guard s = false.
 Proof. exact at_rest_nothing_dispatchable. Qed.
 Print Assumptions C13_drained_at_rest.
+
+(* "Each item is executed by exactly one": an item handed to a pool goroutine is run by it
+   (coq/SlicePool.v) — only the thread that took a node out of the idle list sends to it, so a
+   payload always finds a live goroutine; the idle-worker reaper of a consumer with an expiry
+   leaves alone what the dispatcher has popped. *)
+Theorem C13_dispatched_item_finds_a_live_goroutine :
+  forall s, PReachable s -> jobsq s = 1 -> alive s >= 1 /\ stopsq s = 0.
+Proof. exact job_finds_a_server. Qed.
+Print Assumptions C13_dispatched_item_finds_a_live_goroutine.
